@@ -26,3 +26,5 @@ mod nopanic;
 mod scalarmul;
 #[cfg(kani)]
 mod zeroize_h;
+#[cfg(kani)]
+mod errors;
